@@ -469,7 +469,13 @@ class Engine:
             kw.update(kwargs)
             return self.call(fn.func, fn.args + list(args), kw, node=node)
         if isinstance(fn, Builtin):
-            return fn.fn(self, *args, **kwargs) if fn.wants_engine else fn.fn(*args, **kwargs)
+            try:
+                return fn.fn(self, *args, **kwargs) if fn.wants_engine else fn.fn(*args, **kwargs)
+            except (AttributeError, TypeError, KeyError, IndexError) as e:
+                # a model function met a value it does not cover (e.g. an opaque library object): undecided, never a crash or a verdict
+                import traceback
+                where = traceback.extract_tb(e.__traceback__)[-1]
+                raise Unsupported(f"model of {fn.name} does not cover its arguments ({type(e).__name__}: {e} at {where.filename.split('/')[-1]}:{where.lineno})", node)
         if isinstance(fn, AtenOp):
             from . import torchmodel
 
